@@ -16,11 +16,16 @@ Clauses of the property and where they are proved:
   (c) operands C++ does not evaluate are not evaluated
                                    C14_lazy_and, C14_lazy_or, C14_lazy_cond   (no guard, any operand)
   corollary: no trap / exception / host UB on a defined expression     C14_defined_no_trap
-All theorems are about ALL expression trees of the integer/boolean fragment (induction on the tree,
-no depth bound).  Floating-point values are not reasoned about (DESIGN.md section 3): expressions with
-floating literals are covered by the correspondence run only.
+  (a'), (b') the same for expressions with floating literals   C14_agrees_float_partial, C14_float_literal_type
+All theorems are about ALL expression trees (induction on the tree, no depth bound).
+Floating point (DESIGN.md section 3): the IEEE operations themselves are never reasoned about — they
+are Lean's runtime `Float`/`Float32` in both the specification and the model.  (a') and (b') show that
+occa applies THE SAME operations to THE SAME operands in the same types as C++ prescribes (so the
+results are equal whatever the operations compute); that Lean's `Float` operations are what the host's
+IEEE hardware and g++'s constant folder compute is covered by the correspondence run only.
 -/
 import OccaProofs.Lemmas.PrimEval
+import OccaProofs.Lemmas.PrimEvalF
 
 namespace Occa.Prim.C14
 open Occa Occa.CExpr Occa.CxxSem Occa.Gen Occa.Prim Occa.Prim.Lemmas
@@ -93,6 +98,35 @@ theorem C14_literal_in_context (l : Lit) (v : Val) (hl : integral (.lit l) = tru
 example : Term " + 1".toList := Or.inr ⟨' ', "+ 1".toList, rfl, by decide⟩
 example : litVal (.int ⟨[], "2147483648".toList, []⟩) = .val ⟨.long, 2147483648⟩ := by decide
 example : litVal (.int ⟨['0', 'x'], "FFFFFFFF".toList, []⟩) = .val ⟨.uint, 4294967295⟩ := by decide
+
+/-- (a') The agreement extended to expressions with floating literals (decimal floating literals of the
+    exactly converted subset, `f` suffix or not, mixed freely with integer and boolean operands):
+    type and value of occa's result are the C++ result — as the same term over the IEEE operations.
+    Guard `cleanF` = `clean` plus: `&&` / `||` with a floating operand need both operands of one type
+    (occa tests the operands against zero after converting them to the larger type; that widening keeps
+    "non-zero" is an IEEE fact nothing here assumes). -/
+theorem C14_agrees_float_partial (e : Expr) (v : Val) (hc : cleanF e = true) (h : evalTop e = .val v) :
+    Prim.eval e = .ok (Prim.ofVal v) := by
+  unfold evalTop at h
+  split at h
+  · cases h
+  · split at h
+    · cases h
+    · rename_i τ hτ
+      exact (eval_agreeF e hc τ hτ v h).1
+
+/-- the guard is satisfiable with floats: `(1 + 1.5f) * 2 < 0.5` (its *value* cannot be shown by kernel
+    evaluation — IEEE operations are opaque to the kernel — the driver evaluates it: `f32`/`bool`) -/
+example :
+    cleanF (.bin .lt (.bin .mul (.paren (.bin .add (.lit (.int ⟨[], ['1'], []⟩)) (.lit (.float ⟨['1'], true, ['5'], none, ['f']⟩))))
+        (.lit (.int ⟨[], ['2'], []⟩))) (.lit (.float ⟨['0'], true, ['5'], none, []⟩))) = true := by
+  decide
+
+/-- (b') Floating literal text gets the C++ type: `double`, or `float` with an f/F suffix — also behind
+    an exponent (`1e5f`: primitive::load finds the suffix through its recursive call on the exponent). -/
+theorem C14_float_literal_type (l : FloatLit) (v : Val) (h : floatLitVal l = .val v) :
+    loadTok l.text = Prim.ofVal v ∧ (v.ty = .float ∨ v.ty = .double) :=
+  floatlit_agree l v h
 
 /-- (c) `&&`: when the left operand is false the right operand is not evaluated — the result does not
     depend on it at all, whatever it is (an expression that traps, raises, or is ill-formed). -/
